@@ -69,6 +69,9 @@ type Case struct {
 	Stop      *StopSpec               `json:"stop,omitempty"`
 	TimeoutP  int                     `json:"timeoutP,omitempty"` // DAG timeout in polling periods (0 none)
 	Dry       bool                    `json:"dry,omitempty"`
+	// KillAfterP: after the stop request, the harness escalates like the agent
+	// does after maxCleanUpTime: Signal(SIGKILL) this many polling periods later (0: never).
+	KillAfterP int `json:"killAfterP,omitempty"`
 	// HoldOpen: release nothing until this many attempts are open at once (C15, k=0).
 	HoldOpen int `json:"holdOpen,omitempty"`
 }
@@ -98,6 +101,7 @@ type GenOpts struct {
 	ForceMax   bool // always draw a binding maxActiveRuns
 	NoFail     bool // every step succeeds eventually
 	SignalOn   bool
+	AlwaysStop bool
 }
 
 var stepNames = []string{"a", "b", "c", "d", "e", "f", "g", "h", "i", "j", "k", "l", "m", "n", "o", "p"}
@@ -222,8 +226,16 @@ func Gen(t *rapid.T, o GenOpts) Case {
 			Quiesce: rapid.SampledFrom([]int{0, 1, 1, 3}).Draw(t, "quiesce"),
 		})
 	}
-	if o.Stop && rapid.IntRange(0, 4).Draw(t, "hasStop") > 0 {
+	if o.Stop && (o.AlwaysStop || rapid.IntRange(0, 4).Draw(t, "hasStop") > 0) {
 		c.Stop = genStop(t, &c, o)
+		if o.IgnoreSig {
+			c.KillAfterP = rapid.SampledFrom([]int{5, 20}).Draw(t, "killAfterP")
+			for i := range c.Steps {
+				if c.Steps[i].IgnoreSig && !c.Steps[i].Repeat && rapid.Bool().Draw(t, "holdIgnoring") {
+					c.Steps[i].Hold = true // only SIGKILL ends it
+				}
+			}
+		}
 	}
 	if o.Timeout && c.Stop == nil && rapid.IntRange(0, 3).Draw(t, "hasTimeout") == 0 {
 		c.TimeoutP = rapid.IntRange(5, 30).Draw(t, "timeoutP")
